@@ -108,7 +108,7 @@ def main():
                                  'rule_instances': len(rs),
                                  'helpers_inlined_into_callers': f.inline_report.get('inlined', []),
                                  'helper_bodies_dropped_after_inlining': f.inline_report.get('dropped', []),
-                                 'normalisations': {k: f.inline_report.get(k) for k in ('consts_expanded', 'consts_aliased', 'adaptors_desugared', 'types_renamed', 'unwrapped', 'renamed', 'fields_renamed', 'reads_forwarded', 'sroa', 'tails_split', 'notes')}}
+                                 'normalisations': {k: f.inline_report.get(k) for k in ('consts_expanded', 'consts_aliased', 'adaptors_desugared', 'types_renamed', 'unwrapped', 'renamed', 'fields_renamed', 'webs_split', 'reads_forwarded', 'sroa', 'tails_split', 'notes')}}
             for r in rs:
                 all_results.append((cname, r))
         # controls: positive fixtures
